@@ -163,8 +163,20 @@ def body_factory(tier, seed):
         n_lb = [0]
         for (version, action, req, resp, as_dc) in cases(tier, seed):
             sreq, sresp = GD.snake(req), GD.snake(resp)
+            del N.UNBUILDABLE[:]
             try:
                 obj = N.make_request(version, action, sreq, as_dc)
+                if as_dc is True:
+                    N.make_result(version, action, sresp, as_dc)
+                # a data type named by the annotation refused the keys of a schema-valid value (it was left a plain dict): its
+                # fields do not match the schema there.  Known and not a violation: IdTokenInfoType.language_1/2 (DESIGN 10.4)
+                for (dt, keys, msg) in N.UNBUILDABLE:
+                    if "language1" in keys or "language2" in keys:
+                        continue
+                    rep.violation("C06:datatype-refuses:%s:%s:%s" % (version, action, dt),
+                                  "the data type %s cannot be built from the keys of a schema-valid %s value: %s" % (dt, action, msg),
+                                  {"kind": "loopback", "version": version, "action": action, "request": req, "response": resp,
+                                   "nested_as_dataclasses": as_dc, "datatype": dt, "keys": keys})
             except Exception as e:  # noqa: BLE001
                 rep.violation("C06:construct-request:%s:%s" % (version, action),
                               "a schema-valid %s request cannot be built as call.%s: %s" % (action, action, e),
@@ -200,6 +212,8 @@ def body_factory(tier, seed):
                 nm = action if version == "1.6" else action + "Request"
                 if not schema_keys_ok(fr[3], schemas[version][nm], schemas[version][nm]):
                     bad.append(("wire-keys", "the CALL payload uses keys the schema does not define: %r" % (fr[3],)))
+            if res["kwargs"] is not None and res.get("handler_self") != "B":
+                bad.append(("wrong-endpoint", "the CALL sent to endpoint B was handled by the handler bound to %r" % (res.get("handler_self"),)))
             if res["kwargs"] is None:
                 bad.append(("no-handler", "the handler did not run"))
             elif not O.same_value(res["kwargs"], sreq):
